@@ -499,6 +499,21 @@ def c10_single(v):
     """a-c on one trace: interface, containment, bubbling (the C04 identity clause applied along chains)"""
     V = []
     snap = final_snap(v)
+    # interface: seen from its parent a nested scheduler is one job - its run begins after what it requires has
+    # finished, and what requires it begins after its own run is over
+    for p, e in enumerate(v.log):
+        if e[2] in BEG:
+            j = e[3]
+            if v.is_sched(j) and v.info[j]["parent"] is not None:
+                for r in v.info[j].get("req", []):
+                    f = v.fin.get(r)
+                    if f is None or f[0] > p:
+                        V.append("C10 the run of nested scheduler %s began at t=%d before its requirement %s finished" % (j, e[0], r))
+            for r in v.info[j].get("req", []):
+                if v.is_sched(r):
+                    f = v.fin.get(r)
+                    if f is None or f[0] > p:
+                        V.append("C10 %s began at t=%d before the run of the nested scheduler %s it requires was over" % (j, e[0], r))
     for s in v.began:
         par = v.info[s]["parent"]
         if not v.is_sched(s) or par is None or s not in v.fin:
